@@ -121,7 +121,11 @@ func (or *Orchestrator) Service() *Service {
 					wg.Add(1)
 					go func(ss *Service) {
 						defer wg.Done()
-						ec.Add(ss.waitFor(ctx))
+						// not waitFor(ctx): that returns as soon
+						// as the context is canceled, before the
+						// service has returned and without its
+						// error.
+						ec.Add(ss.Wait())
 					}(s)
 					continue
 				}
